@@ -5,7 +5,8 @@ package rules
 // Files: c19.go (registration, sensitivity suite, layout table, model), c19_scan.go and c19_cycles.go (M1, M2: loops and
 // neighbour scans, decided on the CFG), c19_order.go, c19_order2.go, c19_roles.go (M6: classification of states by time in the binary search, its
 // caller and the lower-bound finder), c19_complete.go (M7: completeness of the lower-bound finder), c19_exits.go (one-line predicates looked through,
-// loops described by their exits), c19_probe.go (how the binary-search loop obtains its probed state: own fetch or probe helper), c19_interp.go (abstract evaluator), c19_eval.go (M3–M5: decision and
+// loops described by their exits), c19_probe.go (how the binary-search loop obtains its probed state: own fetch or probe helper), c19_fields.go (bounds held in struct
+// fields), c19_order3.go (M6 walk following the classification into callees), c19_flow.go (M7: narrowing through a carrier variable), c19_interp.go (abstract evaluator), c19_eval.go (M3–M5: decision and
 // formatting functions evaluated over their finite abstract domain), c19_variants.go (behaviour-preserving variants).
 //
 // Anchors. Everything is resolved from exported API and roles, never from the name or the place of an
@@ -58,7 +59,8 @@ func init() {
 			"(M5) evaluated: each lookup and its package-level delegate calls the search exactly once with the caller's ctx and timestamp, returns the state found together with K(state.SeqNum) of its own kind, propagates the error; the descriptor's functions request the current/numbered state files of the lookup's own kind on the lookup's own datasource (the default datasource for the delegates); the minimum sequence number is a constant >= 1. " +
 			"(M6) in the binary-search loop the probed state is classified by time as the result demands. Read off the code: every success return reachable from the loop gives the upper bound, the lower bound is never returned, so the upper bound is the candidate answer (must be at or after t) and the lower bound is exclusive (must be strictly before t). For each of the three orderings of the probed state's timestamp and the query time (<, ==, >) the CFG is walked from the probe with every comparison of the two instants decided (After/Before/Equal/Compare of time.Time in any spelling, negations, inverted or swapped branches, switch forms, one-line predicates): a state before t becomes the lower and never the upper bound, a state exactly at t or after t becomes the upper and never the lower bound (a state written exactly at t that becomes the lower bound is lost: the lookup answers with the next one). " +
 			"M6 also covers the code around the loop, with roles taken from dataflow (caller = the function handing the two bounds to the binary search, finder = the function whose results the caller assigns to both bounds at once): in the caller, for every value the lower-bound variable is given (the minimum state, the finder's result), `return lower` is unreachable when lower is before t and the binary search is unreachable when lower is at or after t; in the finder a probed state before t never becomes or is handed back as the upper bound, a probed state at or after t becomes the upper bound (or leaves through an answer exit), and a state exactly at t reaches the same updates and returns as a state after t. " +
-			"(M7) the finder, which runs when the minimum state file is missing, is complete: after a probe that found no file the cursor moves by single steps only (narrow-on-missing), and an exit that concludes that nothing lower qualifies (a success return after a probe that found no file, returns-upper; a probed state at or after t handed back as first result, returns-probed) is accepted only for an exhaustive ascending scan (every cursor write in the loop a +1 step; for returns-upper the cursor has reached the upper bound). The pinned tree bisects on missing files and violates all three constructs: that is a known finding (known_findings.jsonl), correct only when the missing files form a prefix of the directory; any further site is reported under another construct and fails. " +
+			"(M7) the finder, which runs when the minimum state file is missing, is complete: after a probe that found no file the cursor moves by single steps only (narrow-on-missing); the same holds through a carrier: a cursor write anywhere in the loop that reads a variable or struct field given, under a 404, a value derived from the cursor, and not recomputed between the probe and the write, is a narrowing on missing under its own construct (`… via <carrier>`), and an exit that concludes that nothing lower qualifies (a success return after a probe that found no file, returns-upper; a probed state at or after t handed back as first result, returns-probed) is accepted only for an exhaustive ascending scan (every cursor write in the loop a +1 step; for returns-upper the cursor has reached the upper bound). The pinned tree bisects on missing files and violates all three constructs: that is a known finding (known_findings.jsonl), correct only when the missing files form a prefix of the directory; any further site is reported under another construct and fails. " +
+			"The two bounds may be state variables or fields of a struct that methods read and update (the loop condition, the middle, the classification and the probe may be methods of it; one range value per search is assumed); the classification is followed into the function that updates the bounds. " +
 			"The verdicts do not depend on how the code is cut into helpers, on if/switch/early-return form, on local names, named constants or statement order. " +
 			"NOT decided: the logarithmic request bound, which state is returned for which timestamp beyond M6/M7 (states with equal timestamps, non-monotone server timestamps), termination of the finder beyond M1, monotonicity of server timestamps, HTTP transport behaviour, parsing of malformed state files, the decoding of interval state files (evaluation stops at their line loop), sequence numbers of 10^9 and more.",
 		Assumptions: []string{"go/types, go/cfg (x/tools v0.29.0)", "tables/replication.json is the planet server's layout", "the abstract evaluator of rules/c19_interp.go implements the semantics of the Go subset it accepts (anything outside it is reported as undecided); fmt.Sprintf, strconv formatting and time.Parse of the checker's Go toolchain are the ones the library is built with (they are applied to the library's constants and the table's samples; the library itself is neither compiled nor run)", "a function of the package that makes exactly one state fetch outside any loop with an unmodified parameter as sequence number is a fetch of that argument (its error handling is not part of M2)"},
@@ -139,6 +141,17 @@ var c19Mutants = []core.Mutant{
 	{Name: "m2-helper-returns-on-first-404", File: "replication/search.go", Find: "func findInRange(ctx context.Context, s *stater, lower, upper *State, timestamp time.Time) (*State, error) {\n\t// we do a binary search through the range to find the sequence number\n\tfor lower.SeqNum+1 < upper.SeqNum {\n\t\t// could do better here\n\t\tsplitID := (lower.SeqNum + upper.SeqNum) / 2\n\n\t\tsplit, err := s.State(ctx, splitID)\n\t\tif err != nil && !NotFound(err) {\n\t\t\treturn nil, err\n\t\t}\n\n\t\tif split == nil {\n\t\t\t// file missing, search the next towards lower\n\t\t\tsID := splitID - 1\n\n\t\t\tfor split == nil && lower.SeqNum < sID {\n\t\t\t\tsplit, err = s.State(ctx, sID)\n\t\t\t\tif err != nil && !NotFound(err) {\n\t\t\t\t\treturn nil, err\n\t\t\t\t}\n\n\t\t\t\tsID--\n\t\t\t}\n\t\t}\n\n\t\tif split == nil {\n\t\t\t// still missing? search the next towards upper\n\t\t\tsID := splitID + 1\n\n\t\t\tfor split == nil && sID < upper.SeqNum {\n\t\t\t\tsplit, err = s.State(ctx, sID)\n\t\t\t\tif err != nil && !NotFound(err) {\n\t\t\t\t\treturn nil, err\n\t\t\t\t}\n\n\t\t\t\tsID++\n\t\t\t}\n\t\t}\n\n\t\tif split == nil {\n\t\t\t// nothing between lower and upper, so upper is\n\t\t\t// the first state at or after the timestamp.\n\t\t\treturn upper, nil\n\t\t}\n\n\t\t// set the new boundary\n\t\tif timestamp.After(split.Timestamp) {\n\t\t\tlower = split\n\t\t} else {\n\t\t\tupper = split\n\t\t}\n\t}\n\n\t// timestamp is now between lower and upper, we want to return the upper.\n\treturn upper, nil\n}\n", Replace: "func findInRange(ctx context.Context, s *stater, lower, upper *State, timestamp time.Time) (*State, error) {\n\t// we do a binary search through the range to find the sequence number\n\tfor lower.SeqNum+1 < upper.SeqNum {\n\t\t// could do better here\n\t\tsplitID := (lower.SeqNum + upper.SeqNum) / 2\n\n\t\tsplit, err := nearestState(ctx, s, lower.SeqNum, splitID, upper.SeqNum)\n\t\tif err != nil {\n\t\t\treturn nil, err\n\t\t}\n\n\t\tif split == nil {\n\t\t\t// nothing between lower and upper, so upper is\n\t\t\t// the first state at or after the timestamp.\n\t\t\treturn upper, nil\n\t\t}\n\n\t\t// set the new boundary\n\t\tif timestamp.After(split.Timestamp) {\n\t\t\tlower = split\n\t\t} else {\n\t\t\tupper = split\n\t\t}\n\t}\n\n\t// timestamp is now between lower and upper, we want to return the upper.\n\treturn upper, nil\n}\n\n// nearestState returns the state at splitID, nil if that file is missing.\nfunc nearestState(ctx context.Context, s *stater, lowerID, splitID, upperID uint64) (*State, error) {\n\tsplit, err := s.State(ctx, splitID)\n\tif err != nil && !NotFound(err) {\n\t\treturn nil, err\n\t}\n\treturn split, nil\n}\n", ExpectRule: "M2", ExpectConstruct: "neighbour scans"},
 	{Name: "m2-helper-scans-although-middle-found", File: "replication/search.go", Find: "func findInRange(ctx context.Context, s *stater, lower, upper *State, timestamp time.Time) (*State, error) {\n\t// we do a binary search through the range to find the sequence number\n\tfor lower.SeqNum+1 < upper.SeqNum {\n\t\t// could do better here\n\t\tsplitID := (lower.SeqNum + upper.SeqNum) / 2\n\n\t\tsplit, err := s.State(ctx, splitID)\n\t\tif err != nil && !NotFound(err) {\n\t\t\treturn nil, err\n\t\t}\n\n\t\tif split == nil {\n\t\t\t// file missing, search the next towards lower\n\t\t\tsID := splitID - 1\n\n\t\t\tfor split == nil && lower.SeqNum < sID {\n\t\t\t\tsplit, err = s.State(ctx, sID)\n\t\t\t\tif err != nil && !NotFound(err) {\n\t\t\t\t\treturn nil, err\n\t\t\t\t}\n\n\t\t\t\tsID--\n\t\t\t}\n\t\t}\n\n\t\tif split == nil {\n\t\t\t// still missing? search the next towards upper\n\t\t\tsID := splitID + 1\n\n\t\t\tfor split == nil && sID < upper.SeqNum {\n\t\t\t\tsplit, err = s.State(ctx, sID)\n\t\t\t\tif err != nil && !NotFound(err) {\n\t\t\t\t\treturn nil, err\n\t\t\t\t}\n\n\t\t\t\tsID++\n\t\t\t}\n\t\t}\n\n\t\tif split == nil {\n\t\t\t// nothing between lower and upper, so upper is\n\t\t\t// the first state at or after the timestamp.\n\t\t\treturn upper, nil\n\t\t}\n\n\t\t// set the new boundary\n\t\tif timestamp.After(split.Timestamp) {\n\t\t\tlower = split\n\t\t} else {\n\t\t\tupper = split\n\t\t}\n\t}\n\n\t// timestamp is now between lower and upper, we want to return the upper.\n\treturn upper, nil\n}\n", Replace: "func findInRange(ctx context.Context, s *stater, lower, upper *State, timestamp time.Time) (*State, error) {\n\t// we do a binary search through the range to find the sequence number\n\tfor lower.SeqNum+1 < upper.SeqNum {\n\t\t// could do better here\n\t\tsplitID := (lower.SeqNum + upper.SeqNum) / 2\n\n\t\tsplit, err := nearestState(ctx, s, lower.SeqNum, splitID, upper.SeqNum)\n\t\tif err != nil {\n\t\t\treturn nil, err\n\t\t}\n\n\t\tif split == nil {\n\t\t\t// nothing between lower and upper, so upper is\n\t\t\t// the first state at or after the timestamp.\n\t\t\treturn upper, nil\n\t\t}\n\n\t\t// set the new boundary\n\t\tif timestamp.After(split.Timestamp) {\n\t\t\tlower = split\n\t\t} else {\n\t\t\tupper = split\n\t\t}\n\t}\n\n\t// timestamp is now between lower and upper, we want to return the upper.\n\treturn upper, nil\n}\n\n// nearestState returns the state at splitID or, if that file is missing, the first available one stepping\n// down towards lowerID and after that stepping up towards upperID, both exclusive.\nfunc nearestState(ctx context.Context, s *stater, lowerID, splitID, upperID uint64) (*State, error) {\n\tsplit, err := s.State(ctx, splitID)\n\tif err != nil && !NotFound(err) {\n\t\treturn nil, err\n\t}\n\tmiddle := split\n\n\t// file missing, search the next towards lower\n\tfor id := splitID - 1; lowerID < id; id-- {\n\t\tsplit, err = s.State(ctx, id)\n\t\tif err != nil && !NotFound(err) {\n\t\t\treturn nil, err\n\t\t}\n\t\tif split != nil {\n\t\t\treturn split, nil\n\t\t}\n\t}\n\n\t// still missing? search the next towards upper\n\tfor id := splitID + 1; id < upperID; id++ {\n\t\tsplit, err = s.State(ctx, id)\n\t\tif err != nil && !NotFound(err) {\n\t\t\treturn nil, err\n\t\t}\n\t\tif split != nil {\n\t\t\treturn split, nil\n\t\t}\n\t}\n\n\treturn middle, nil\n}\n", ExpectRule: "M2", ExpectConstruct: "scans@findInRange middle"},
 	{Name: "m6-helper-equal-becomes-lower", File: "replication/search.go", Find: "func findInRange(ctx context.Context, s *stater, lower, upper *State, timestamp time.Time) (*State, error) {\n\t// we do a binary search through the range to find the sequence number\n\tfor lower.SeqNum+1 < upper.SeqNum {\n\t\t// could do better here\n\t\tsplitID := (lower.SeqNum + upper.SeqNum) / 2\n\n\t\tsplit, err := s.State(ctx, splitID)\n\t\tif err != nil && !NotFound(err) {\n\t\t\treturn nil, err\n\t\t}\n\n\t\tif split == nil {\n\t\t\t// file missing, search the next towards lower\n\t\t\tsID := splitID - 1\n\n\t\t\tfor split == nil && lower.SeqNum < sID {\n\t\t\t\tsplit, err = s.State(ctx, sID)\n\t\t\t\tif err != nil && !NotFound(err) {\n\t\t\t\t\treturn nil, err\n\t\t\t\t}\n\n\t\t\t\tsID--\n\t\t\t}\n\t\t}\n\n\t\tif split == nil {\n\t\t\t// still missing? search the next towards upper\n\t\t\tsID := splitID + 1\n\n\t\t\tfor split == nil && sID < upper.SeqNum {\n\t\t\t\tsplit, err = s.State(ctx, sID)\n\t\t\t\tif err != nil && !NotFound(err) {\n\t\t\t\t\treturn nil, err\n\t\t\t\t}\n\n\t\t\t\tsID++\n\t\t\t}\n\t\t}\n\n\t\tif split == nil {\n\t\t\t// nothing between lower and upper, so upper is\n\t\t\t// the first state at or after the timestamp.\n\t\t\treturn upper, nil\n\t\t}\n\n\t\t// set the new boundary\n\t\tif timestamp.After(split.Timestamp) {\n\t\t\tlower = split\n\t\t} else {\n\t\t\tupper = split\n\t\t}\n\t}\n\n\t// timestamp is now between lower and upper, we want to return the upper.\n\treturn upper, nil\n}\n", Replace: "func findInRange(ctx context.Context, s *stater, lower, upper *State, timestamp time.Time) (*State, error) {\n\t// we do a binary search through the range to find the sequence number\n\tfor lower.SeqNum+1 < upper.SeqNum {\n\t\t// could do better here\n\t\tsplitID := (lower.SeqNum + upper.SeqNum) / 2\n\n\t\tsplit, err := nearestState(ctx, s, lower.SeqNum, splitID, upper.SeqNum)\n\t\tif err != nil {\n\t\t\treturn nil, err\n\t\t}\n\n\t\tif split == nil {\n\t\t\t// nothing between lower and upper, so upper is\n\t\t\t// the first state at or after the timestamp.\n\t\t\treturn upper, nil\n\t\t}\n\n\t\t// set the new boundary\n\t\tif split.Timestamp.After(timestamp) {\n\t\t\tupper = split\n\t\t} else {\n\t\t\tlower = split\n\t\t}\n\t}\n\n\t// timestamp is now between lower and upper, we want to return the upper.\n\treturn upper, nil\n}\n\n// nearestState returns the state at splitID or, if that file is missing, the first available one stepping\n// down towards lowerID and after that stepping up towards upperID, both exclusive.\nfunc nearestState(ctx context.Context, s *stater, lowerID, splitID, upperID uint64) (*State, error) {\n\tsplit, err := s.State(ctx, splitID)\n\tif err != nil && !NotFound(err) {\n\t\treturn nil, err\n\t}\n\tif split != nil {\n\t\treturn split, nil\n\t}\n\n\t// file missing, search the next towards lower\n\tfor id := splitID - 1; lowerID < id; id-- {\n\t\tsplit, err = s.State(ctx, id)\n\t\tif err != nil && !NotFound(err) {\n\t\t\treturn nil, err\n\t\t}\n\t\tif split != nil {\n\t\t\treturn split, nil\n\t\t}\n\t}\n\n\t// still missing? search the next towards upper\n\tfor id := splitID + 1; id < upperID; id++ {\n\t\tsplit, err = s.State(ctx, id)\n\t\tif err != nil && !NotFound(err) {\n\t\t\treturn nil, err\n\t\t}\n\t\tif split != nil {\n\t\t\treturn split, nil\n\t\t}\n\t}\n\n\treturn nil, nil\n}\n", ExpectRule: "M6", ExpectConstruct: "order@findInRange lower"},
+	// M7, flow part: the cursor restarts from an id recorded under a 404 (the first is the seeded defect C19-e)
+	{Name: "m7-restart-from-404-floor", File: "replication/search.go", Find: "\tvar (\n\t\tlowerID uint64 = 1\n\t\tlower   *State\n\t\terr     error\n\t)\n\n\t// we need to find the lower bound\n\tfor lower == nil {\n\t\tlower, err = s.State(ctx, lowerID)\n\n\t\tif err != nil && !NotFound(err) {\n\t\t\treturn nil, nil, err\n\t\t}\n\n\t\tif lower != nil && !timestamp.After(lower.Timestamp) {\n\t\t\tif lower.SeqNum+1 >= upper.SeqNum {\n\t\t\t\treturn lower, upper, nil // edge case if there are only two sequence numbers\n\t\t\t}\n\n\t\t\t// in our search for lower we found a new upper bound\n\t\t\tupper = lower\n\t\t\tlower = nil\n\t\t\tlowerID = 1\n\t\t}\n", Replace: "\tvar (\n\t\tlowerID uint64 = 1\n\t\tfloorID uint64 = 1 // highest id probed so far that has no state file\n\t\tlower   *State\n\t\terr     error\n\t)\n\n\t// we need to find the lower bound\n\tfor lower == nil {\n\t\tlower, err = s.State(ctx, lowerID)\n\n\t\tif err != nil && !NotFound(err) {\n\t\t\treturn nil, nil, err\n\t\t}\n\n\t\tif lower == nil {\n\t\t\t// the state files start somewhere above this id\n\t\t\tfloorID = lowerID\n\t\t} else if !timestamp.After(lower.Timestamp) {\n\t\t\tif lower.SeqNum+1 >= upper.SeqNum {\n\t\t\t\treturn lower, upper, nil // edge case if there are only two sequence numbers\n\t\t\t}\n\n\t\t\t// in our search for lower we found a new upper bound\n\t\t\tupper = lower\n\t\t\tlower = nil\n\t\t\tlowerID = floorID\n\t\t}\n", ExpectRule: "M7", ExpectConstruct: "narrow-on-missing@findBound via floorID"},
+	{Name: "m7-restart-above-404-floor", File: "replication/search.go", Find: "\tvar (\n\t\tlowerID uint64 = 1\n\t\tlower   *State\n\t\terr     error\n\t)\n\n\t// we need to find the lower bound\n\tfor lower == nil {\n\t\tlower, err = s.State(ctx, lowerID)\n\n\t\tif err != nil && !NotFound(err) {\n\t\t\treturn nil, nil, err\n\t\t}\n\n\t\tif lower != nil && !timestamp.After(lower.Timestamp) {\n\t\t\tif lower.SeqNum+1 >= upper.SeqNum {\n\t\t\t\treturn lower, upper, nil // edge case if there are only two sequence numbers\n\t\t\t}\n\n\t\t\t// in our search for lower we found a new upper bound\n\t\t\tupper = lower\n\t\t\tlower = nil\n\t\t\tlowerID = 1\n\t\t}\n", Replace: "\tvar (\n\t\tlowerID uint64 = 1\n\t\tfloorID uint64\n\t\tlower   *State\n\t\terr     error\n\t)\n\n\t// we need to find the lower bound\n\tfor lower == nil {\n\t\tlower, err = s.State(ctx, lowerID)\n\n\t\tif err != nil && !NotFound(err) {\n\t\t\treturn nil, nil, err\n\t\t}\n\n\t\tif lower == nil {\n\t\t\t// the state files start somewhere above this id\n\t\t\tfloorID = lowerID\n\t\t} else if !timestamp.After(lower.Timestamp) {\n\t\t\tif lower.SeqNum+1 >= upper.SeqNum {\n\t\t\t\treturn lower, upper, nil // edge case if there are only two sequence numbers\n\t\t\t}\n\n\t\t\t// in our search for lower we found a new upper bound\n\t\t\tupper = lower\n\t\t\tlower = nil\n\t\t\tlowerID = floorID + 1\n\t\t}\n", ExpectRule: "M7", ExpectConstruct: "narrow-on-missing@findBound via floorID"},
+	{Name: "m7-404-floor-in-struct-field", File: "replication/search.go", Find: "\tvar (\n\t\tlowerID uint64 = 1\n\t\tlower   *State\n\t\terr     error\n\t)\n\n\t// we need to find the lower bound\n\tfor lower == nil {\n\t\tlower, err = s.State(ctx, lowerID)\n\n\t\tif err != nil && !NotFound(err) {\n\t\t\treturn nil, nil, err\n\t\t}\n\n\t\tif lower != nil && !timestamp.After(lower.Timestamp) {\n\t\t\tif lower.SeqNum+1 >= upper.SeqNum {\n\t\t\t\treturn lower, upper, nil // edge case if there are only two sequence numbers\n\t\t\t}\n\n\t\t\t// in our search for lower we found a new upper bound\n\t\t\tupper = lower\n\t\t\tlower = nil\n\t\t\tlowerID = 1\n\t\t}\n", Replace: "\tvar (\n\t\tlowerID uint64 = 1\n\t\tmark    struct{ floor uint64 }\n\t\tlower   *State\n\t\terr     error\n\t)\n\n\t// we need to find the lower bound\n\tfor lower == nil {\n\t\tlower, err = s.State(ctx, lowerID)\n\n\t\tif err != nil && !NotFound(err) {\n\t\t\treturn nil, nil, err\n\t\t}\n\n\t\tif lower == nil {\n\t\t\t// the state files start somewhere above this id\n\t\t\tmark.floor = lowerID\n\t\t} else if !timestamp.After(lower.Timestamp) {\n\t\t\tif lower.SeqNum+1 >= upper.SeqNum {\n\t\t\t\treturn lower, upper, nil // edge case if there are only two sequence numbers\n\t\t\t}\n\n\t\t\t// in our search for lower we found a new upper bound\n\t\t\tupper = lower\n\t\t\tlower = nil\n\t\t\tlowerID = mark.floor\n\t\t}\n", ExpectRule: "M7", ExpectConstruct: "narrow-on-missing@findBound via floor"},
+	{Name: "m7-404-floor-through-local", File: "replication/search.go", Find: "\tvar (\n\t\tlowerID uint64 = 1\n\t\tlower   *State\n\t\terr     error\n\t)\n\n\t// we need to find the lower bound\n\tfor lower == nil {\n\t\tlower, err = s.State(ctx, lowerID)\n\n\t\tif err != nil && !NotFound(err) {\n\t\t\treturn nil, nil, err\n\t\t}\n\n\t\tif lower != nil && !timestamp.After(lower.Timestamp) {\n\t\t\tif lower.SeqNum+1 >= upper.SeqNum {\n\t\t\t\treturn lower, upper, nil // edge case if there are only two sequence numbers\n\t\t\t}\n\n\t\t\t// in our search for lower we found a new upper bound\n\t\t\tupper = lower\n\t\t\tlower = nil\n\t\t\tlowerID = 1\n\t\t}\n", Replace: "\tvar (\n\t\tlowerID uint64 = 1\n\t\tfloorID uint64 = 1\n\t\tlower   *State\n\t\terr     error\n\t)\n\n\t// we need to find the lower bound\n\tfor lower == nil {\n\t\tlower, err = s.State(ctx, lowerID)\n\n\t\tif err != nil && !NotFound(err) {\n\t\t\treturn nil, nil, err\n\t\t}\n\n\t\tif lower == nil {\n\t\t\t// the state files start somewhere above this id\n\t\t\tfloorID = lowerID\n\t\t} else if !timestamp.After(lower.Timestamp) {\n\t\t\tif lower.SeqNum+1 >= upper.SeqNum {\n\t\t\t\treturn lower, upper, nil // edge case if there are only two sequence numbers\n\t\t\t}\n\n\t\t\t// in our search for lower we found a new upper bound\n\t\t\tupper = lower\n\t\t\tlower = nil\n\t\t\trestart := floorID\n\t\t\tlowerID = restart\n\t\t}\n", ExpectRule: "M7", ExpectConstruct: "narrow-on-missing@findBound via floorID"},
+	// defects seeded into the struct form (bounds in fields of a struct, read and updated by methods)
+	{Name: "m6-method-equal-becomes-lower", File: "replication/search.go", Find: "func findInRange(ctx context.Context, s *stater, lower, upper *State, timestamp time.Time) (*State, error) {\n\t// we do a binary search through the range to find the sequence number\n\tfor lower.SeqNum+1 < upper.SeqNum {\n\t\t// could do better here\n\t\tsplitID := (lower.SeqNum + upper.SeqNum) / 2\n\n\t\tsplit, err := s.State(ctx, splitID)\n\t\tif err != nil && !NotFound(err) {\n\t\t\treturn nil, err\n\t\t}\n\n\t\tif split == nil {\n\t\t\t// file missing, search the next towards lower\n\t\t\tsID := splitID - 1\n\n\t\t\tfor split == nil && lower.SeqNum < sID {\n\t\t\t\tsplit, err = s.State(ctx, sID)\n\t\t\t\tif err != nil && !NotFound(err) {\n\t\t\t\t\treturn nil, err\n\t\t\t\t}\n\n\t\t\t\tsID--\n\t\t\t}\n\t\t}\n\n\t\tif split == nil {\n\t\t\t// still missing? search the next towards upper\n\t\t\tsID := splitID + 1\n\n\t\t\tfor split == nil && sID < upper.SeqNum {\n\t\t\t\tsplit, err = s.State(ctx, sID)\n\t\t\t\tif err != nil && !NotFound(err) {\n\t\t\t\t\treturn nil, err\n\t\t\t\t}\n\n\t\t\t\tsID++\n\t\t\t}\n\t\t}\n\n\t\tif split == nil {\n\t\t\t// nothing between lower and upper, so upper is\n\t\t\t// the first state at or after the timestamp.\n\t\t\treturn upper, nil\n\t\t}\n\n\t\t// set the new boundary\n\t\tif timestamp.After(split.Timestamp) {\n\t\t\tlower = split\n\t\t} else {\n\t\t\tupper = split\n\t\t}\n\t}\n\n\t// timestamp is now between lower and upper, we want to return the upper.\n\treturn upper, nil\n}\n", Replace: "// stateRange is the pair of states the binary search narrows down: the timestamp\n// looked for is after lower and at or before upper.\ntype stateRange struct {\n\tlower, upper *State\n}\n\n// adjacent is true if there is no sequence number left between the bounds.\nfunc (r *stateRange) adjacent() bool {\n\treturn r.lower.SeqNum+1 >= r.upper.SeqNum\n}\n\n// middle is the sequence number to look at next.\nfunc (r *stateRange) middle() uint64 {\n\treturn (r.lower.SeqNum + r.upper.SeqNum) / 2\n}\n\n// narrow replaces one of the bounds by a state found between them.\nfunc (r *stateRange) narrow(split *State, timestamp time.Time) {\n\tif split.Timestamp.After(timestamp) {\n\t\tr.upper = split\n\t} else {\n\t\tr.lower = split\n\t}\n}\n\nfunc findInRange(ctx context.Context, s *stater, lower, upper *State, timestamp time.Time) (*State, error) {\n\twindow := stateRange{lower: lower, upper: upper}\n\n\t// we do a binary search through the range to find the sequence number\n\tfor !window.adjacent() {\n\t\t// could do better here\n\t\tsplitID := window.middle()\n\n\t\tsplit, err := s.State(ctx, splitID)\n\t\tif err != nil && !NotFound(err) {\n\t\t\treturn nil, err\n\t\t}\n\n\t\tif split == nil {\n\t\t\t// file missing, search the next towards lower\n\t\t\tsID := splitID - 1\n\n\t\t\tfor split == nil && window.lower.SeqNum < sID {\n\t\t\t\tsplit, err = s.State(ctx, sID)\n\t\t\t\tif err != nil && !NotFound(err) {\n\t\t\t\t\treturn nil, err\n\t\t\t\t}\n\n\t\t\t\tsID--\n\t\t\t}\n\t\t}\n\n\t\tif split == nil {\n\t\t\t// still missing? search the next towards upper\n\t\t\tsID := splitID + 1\n\n\t\t\tfor split == nil && sID < window.upper.SeqNum {\n\t\t\t\tsplit, err = s.State(ctx, sID)\n\t\t\t\tif err != nil && !NotFound(err) {\n\t\t\t\t\treturn nil, err\n\t\t\t\t}\n\n\t\t\t\tsID++\n\t\t\t}\n\t\t}\n\n\t\tif split == nil {\n\t\t\t// nothing between lower and upper, so upper is\n\t\t\t// the first state at or after the timestamp.\n\t\t\treturn window.upper, nil\n\t\t}\n\n\t\t// set the new boundary\n\t\twindow.narrow(split, timestamp)\n\t}\n\n\t// timestamp is now between lower and upper, we want to return the upper.\n\treturn window.upper, nil\n}\n", ExpectRule: "M6", ExpectConstruct: "order@findInRange lower"},
+	{Name: "m2-method-scan-bound-one-short", File: "replication/search.go", Find: "func findInRange(ctx context.Context, s *stater, lower, upper *State, timestamp time.Time) (*State, error) {\n\t// we do a binary search through the range to find the sequence number\n\tfor lower.SeqNum+1 < upper.SeqNum {\n\t\t// could do better here\n\t\tsplitID := (lower.SeqNum + upper.SeqNum) / 2\n\n\t\tsplit, err := s.State(ctx, splitID)\n\t\tif err != nil && !NotFound(err) {\n\t\t\treturn nil, err\n\t\t}\n\n\t\tif split == nil {\n\t\t\t// file missing, search the next towards lower\n\t\t\tsID := splitID - 1\n\n\t\t\tfor split == nil && lower.SeqNum < sID {\n\t\t\t\tsplit, err = s.State(ctx, sID)\n\t\t\t\tif err != nil && !NotFound(err) {\n\t\t\t\t\treturn nil, err\n\t\t\t\t}\n\n\t\t\t\tsID--\n\t\t\t}\n\t\t}\n\n\t\tif split == nil {\n\t\t\t// still missing? search the next towards upper\n\t\t\tsID := splitID + 1\n\n\t\t\tfor split == nil && sID < upper.SeqNum {\n\t\t\t\tsplit, err = s.State(ctx, sID)\n\t\t\t\tif err != nil && !NotFound(err) {\n\t\t\t\t\treturn nil, err\n\t\t\t\t}\n\n\t\t\t\tsID++\n\t\t\t}\n\t\t}\n\n\t\tif split == nil {\n\t\t\t// nothing between lower and upper, so upper is\n\t\t\t// the first state at or after the timestamp.\n\t\t\treturn upper, nil\n\t\t}\n\n\t\t// set the new boundary\n\t\tif timestamp.After(split.Timestamp) {\n\t\t\tlower = split\n\t\t} else {\n\t\t\tupper = split\n\t\t}\n\t}\n\n\t// timestamp is now between lower and upper, we want to return the upper.\n\treturn upper, nil\n}\n", Replace: "// stateRange is the pair of states the binary search narrows down: the timestamp\n// looked for is after lower and at or before upper.\ntype stateRange struct {\n\tlower, upper *State\n}\n\n// adjacent is true if there is no sequence number left between the bounds.\nfunc (r *stateRange) adjacent() bool {\n\treturn r.lower.SeqNum+1 >= r.upper.SeqNum\n}\n\n// middle is the sequence number to look at next.\nfunc (r *stateRange) middle() uint64 {\n\treturn (r.lower.SeqNum + r.upper.SeqNum) / 2\n}\n\n// narrow replaces one of the bounds by a state found between them.\nfunc (r *stateRange) narrow(split *State, timestamp time.Time) {\n\tif timestamp.After(split.Timestamp) {\n\t\tr.lower = split\n\t} else {\n\t\tr.upper = split\n\t}\n}\n\nfunc findInRange(ctx context.Context, s *stater, lower, upper *State, timestamp time.Time) (*State, error) {\n\twindow := stateRange{lower: lower, upper: upper}\n\n\t// we do a binary search through the range to find the sequence number\n\tfor !window.adjacent() {\n\t\t// could do better here\n\t\tsplitID := window.middle()\n\n\t\tsplit, err := s.State(ctx, splitID)\n\t\tif err != nil && !NotFound(err) {\n\t\t\treturn nil, err\n\t\t}\n\n\t\tif split == nil {\n\t\t\t// file missing, search the next towards lower\n\t\t\tsID := splitID - 1\n\n\t\t\tfor split == nil && window.lower.SeqNum+1 < sID {\n\t\t\t\tsplit, err = s.State(ctx, sID)\n\t\t\t\tif err != nil && !NotFound(err) {\n\t\t\t\t\treturn nil, err\n\t\t\t\t}\n\n\t\t\t\tsID--\n\t\t\t}\n\t\t}\n\n\t\tif split == nil {\n\t\t\t// still missing? search the next towards upper\n\t\t\tsID := splitID + 1\n\n\t\t\tfor split == nil && sID < window.upper.SeqNum {\n\t\t\t\tsplit, err = s.State(ctx, sID)\n\t\t\t\tif err != nil && !NotFound(err) {\n\t\t\t\t\treturn nil, err\n\t\t\t\t}\n\n\t\t\t\tsID++\n\t\t\t}\n\t\t}\n\n\t\tif split == nil {\n\t\t\t// nothing between lower and upper, so upper is\n\t\t\t// the first state at or after the timestamp.\n\t\t\treturn window.upper, nil\n\t\t}\n\n\t\t// set the new boundary\n\t\twindow.narrow(split, timestamp)\n\t}\n\n\t// timestamp is now between lower and upper, we want to return the upper.\n\treturn window.upper, nil\n}\n", ExpectRule: "M2", ExpectConstruct: "scan-down@findInRange bound"},
+	{Name: "m2-method-exhausted-returns-lower", File: "replication/search.go", Find: "func findInRange(ctx context.Context, s *stater, lower, upper *State, timestamp time.Time) (*State, error) {\n\t// we do a binary search through the range to find the sequence number\n\tfor lower.SeqNum+1 < upper.SeqNum {\n\t\t// could do better here\n\t\tsplitID := (lower.SeqNum + upper.SeqNum) / 2\n\n\t\tsplit, err := s.State(ctx, splitID)\n\t\tif err != nil && !NotFound(err) {\n\t\t\treturn nil, err\n\t\t}\n\n\t\tif split == nil {\n\t\t\t// file missing, search the next towards lower\n\t\t\tsID := splitID - 1\n\n\t\t\tfor split == nil && lower.SeqNum < sID {\n\t\t\t\tsplit, err = s.State(ctx, sID)\n\t\t\t\tif err != nil && !NotFound(err) {\n\t\t\t\t\treturn nil, err\n\t\t\t\t}\n\n\t\t\t\tsID--\n\t\t\t}\n\t\t}\n\n\t\tif split == nil {\n\t\t\t// still missing? search the next towards upper\n\t\t\tsID := splitID + 1\n\n\t\t\tfor split == nil && sID < upper.SeqNum {\n\t\t\t\tsplit, err = s.State(ctx, sID)\n\t\t\t\tif err != nil && !NotFound(err) {\n\t\t\t\t\treturn nil, err\n\t\t\t\t}\n\n\t\t\t\tsID++\n\t\t\t}\n\t\t}\n\n\t\tif split == nil {\n\t\t\t// nothing between lower and upper, so upper is\n\t\t\t// the first state at or after the timestamp.\n\t\t\treturn upper, nil\n\t\t}\n\n\t\t// set the new boundary\n\t\tif timestamp.After(split.Timestamp) {\n\t\t\tlower = split\n\t\t} else {\n\t\t\tupper = split\n\t\t}\n\t}\n\n\t// timestamp is now between lower and upper, we want to return the upper.\n\treturn upper, nil\n}\n", Replace: "// stateRange is the pair of states the binary search narrows down: the timestamp\n// looked for is after lower and at or before upper.\ntype stateRange struct {\n\tlower, upper *State\n}\n\n// adjacent is true if there is no sequence number left between the bounds.\nfunc (r *stateRange) adjacent() bool {\n\treturn r.lower.SeqNum+1 >= r.upper.SeqNum\n}\n\n// middle is the sequence number to look at next.\nfunc (r *stateRange) middle() uint64 {\n\treturn (r.lower.SeqNum + r.upper.SeqNum) / 2\n}\n\n// narrow replaces one of the bounds by a state found between them.\nfunc (r *stateRange) narrow(split *State, timestamp time.Time) {\n\tif timestamp.After(split.Timestamp) {\n\t\tr.lower = split\n\t} else {\n\t\tr.upper = split\n\t}\n}\n\nfunc findInRange(ctx context.Context, s *stater, lower, upper *State, timestamp time.Time) (*State, error) {\n\twindow := stateRange{lower: lower, upper: upper}\n\n\t// we do a binary search through the range to find the sequence number\n\tfor !window.adjacent() {\n\t\t// could do better here\n\t\tsplitID := window.middle()\n\n\t\tsplit, err := s.State(ctx, splitID)\n\t\tif err != nil && !NotFound(err) {\n\t\t\treturn nil, err\n\t\t}\n\n\t\tif split == nil {\n\t\t\t// file missing, search the next towards lower\n\t\t\tsID := splitID - 1\n\n\t\t\tfor split == nil && window.lower.SeqNum < sID {\n\t\t\t\tsplit, err = s.State(ctx, sID)\n\t\t\t\tif err != nil && !NotFound(err) {\n\t\t\t\t\treturn nil, err\n\t\t\t\t}\n\n\t\t\t\tsID--\n\t\t\t}\n\t\t}\n\n\t\tif split == nil {\n\t\t\t// still missing? search the next towards upper\n\t\t\tsID := splitID + 1\n\n\t\t\tfor split == nil && sID < window.upper.SeqNum {\n\t\t\t\tsplit, err = s.State(ctx, sID)\n\t\t\t\tif err != nil && !NotFound(err) {\n\t\t\t\t\treturn nil, err\n\t\t\t\t}\n\n\t\t\t\tsID++\n\t\t\t}\n\t\t}\n\n\t\tif split == nil {\n\t\t\t// nothing between lower and upper, so upper is\n\t\t\t// the first state at or after the timestamp.\n\t\t\treturn window.lower, nil\n\t\t}\n\n\t\t// set the new boundary\n\t\twindow.narrow(split, timestamp)\n\t}\n\n\t// timestamp is now between lower and upper, we want to return the upper.\n\treturn window.upper, nil\n}\n", ExpectRule: "M2", ExpectConstruct: "scans@findInRange exhausted"},
+	{Name: "m1-method-condition-on-frozen-copy", File: "replication/search.go", Find: "func findInRange(ctx context.Context, s *stater, lower, upper *State, timestamp time.Time) (*State, error) {\n\t// we do a binary search through the range to find the sequence number\n\tfor lower.SeqNum+1 < upper.SeqNum {\n\t\t// could do better here\n\t\tsplitID := (lower.SeqNum + upper.SeqNum) / 2\n\n\t\tsplit, err := s.State(ctx, splitID)\n\t\tif err != nil && !NotFound(err) {\n\t\t\treturn nil, err\n\t\t}\n\n\t\tif split == nil {\n\t\t\t// file missing, search the next towards lower\n\t\t\tsID := splitID - 1\n\n\t\t\tfor split == nil && lower.SeqNum < sID {\n\t\t\t\tsplit, err = s.State(ctx, sID)\n\t\t\t\tif err != nil && !NotFound(err) {\n\t\t\t\t\treturn nil, err\n\t\t\t\t}\n\n\t\t\t\tsID--\n\t\t\t}\n\t\t}\n\n\t\tif split == nil {\n\t\t\t// still missing? search the next towards upper\n\t\t\tsID := splitID + 1\n\n\t\t\tfor split == nil && sID < upper.SeqNum {\n\t\t\t\tsplit, err = s.State(ctx, sID)\n\t\t\t\tif err != nil && !NotFound(err) {\n\t\t\t\t\treturn nil, err\n\t\t\t\t}\n\n\t\t\t\tsID++\n\t\t\t}\n\t\t}\n\n\t\tif split == nil {\n\t\t\t// nothing between lower and upper, so upper is\n\t\t\t// the first state at or after the timestamp.\n\t\t\treturn upper, nil\n\t\t}\n\n\t\t// set the new boundary\n\t\tif timestamp.After(split.Timestamp) {\n\t\t\tlower = split\n\t\t} else {\n\t\t\tupper = split\n\t\t}\n\t}\n\n\t// timestamp is now between lower and upper, we want to return the upper.\n\treturn upper, nil\n}\n", Replace: "// stateRange is the pair of states the binary search narrows down: the timestamp\n// looked for is after lower and at or before upper.\ntype stateRange struct {\n\tlower, upper *State\n}\n\n// adjacent is true if there is no sequence number left between the bounds.\nfunc (r *stateRange) adjacent() bool {\n\treturn r.lower.SeqNum+1 >= r.upper.SeqNum\n}\n\n// middle is the sequence number to look at next.\nfunc (r *stateRange) middle() uint64 {\n\treturn (r.lower.SeqNum + r.upper.SeqNum) / 2\n}\n\n// narrow replaces one of the bounds by a state found between them.\nfunc (r *stateRange) narrow(split *State, timestamp time.Time) {\n\tif timestamp.After(split.Timestamp) {\n\t\tr.lower = split\n\t} else {\n\t\tr.upper = split\n\t}\n}\n\nfunc findInRange(ctx context.Context, s *stater, lower, upper *State, timestamp time.Time) (*State, error) {\n\twindow := stateRange{lower: lower, upper: upper}\n\n\t// we do a binary search through the range to find the sequence number\n\tfrozen := window\n\tfor !frozen.adjacent() {\n\t\t// could do better here\n\t\tsplitID := window.middle()\n\n\t\tsplit, err := s.State(ctx, splitID)\n\t\tif err != nil && !NotFound(err) {\n\t\t\treturn nil, err\n\t\t}\n\n\t\tif split == nil {\n\t\t\t// file missing, search the next towards lower\n\t\t\tsID := splitID - 1\n\n\t\t\tfor split == nil && window.lower.SeqNum < sID {\n\t\t\t\tsplit, err = s.State(ctx, sID)\n\t\t\t\tif err != nil && !NotFound(err) {\n\t\t\t\t\treturn nil, err\n\t\t\t\t}\n\n\t\t\t\tsID--\n\t\t\t}\n\t\t}\n\n\t\tif split == nil {\n\t\t\t// still missing? search the next towards upper\n\t\t\tsID := splitID + 1\n\n\t\t\tfor split == nil && sID < window.upper.SeqNum {\n\t\t\t\tsplit, err = s.State(ctx, sID)\n\t\t\t\tif err != nil && !NotFound(err) {\n\t\t\t\t\treturn nil, err\n\t\t\t\t}\n\n\t\t\t\tsID++\n\t\t\t}\n\t\t}\n\n\t\tif split == nil {\n\t\t\t// nothing between lower and upper, so upper is\n\t\t\t// the first state at or after the timestamp.\n\t\t\treturn window.upper, nil\n\t\t}\n\n\t\t// set the new boundary\n\t\twindow.narrow(split, timestamp)\n\t}\n\n\t// timestamp is now between lower and upper, we want to return the upper.\n\treturn window.upper, nil\n}\n", ExpectRule: "M1", ExpectConstruct: "loop@findInRange[1] conjunct 1"},
+	{Name: "m6-method-narrow-ignores-time", File: "replication/search.go", Find: "func findInRange(ctx context.Context, s *stater, lower, upper *State, timestamp time.Time) (*State, error) {\n\t// we do a binary search through the range to find the sequence number\n\tfor lower.SeqNum+1 < upper.SeqNum {\n\t\t// could do better here\n\t\tsplitID := (lower.SeqNum + upper.SeqNum) / 2\n\n\t\tsplit, err := s.State(ctx, splitID)\n\t\tif err != nil && !NotFound(err) {\n\t\t\treturn nil, err\n\t\t}\n\n\t\tif split == nil {\n\t\t\t// file missing, search the next towards lower\n\t\t\tsID := splitID - 1\n\n\t\t\tfor split == nil && lower.SeqNum < sID {\n\t\t\t\tsplit, err = s.State(ctx, sID)\n\t\t\t\tif err != nil && !NotFound(err) {\n\t\t\t\t\treturn nil, err\n\t\t\t\t}\n\n\t\t\t\tsID--\n\t\t\t}\n\t\t}\n\n\t\tif split == nil {\n\t\t\t// still missing? search the next towards upper\n\t\t\tsID := splitID + 1\n\n\t\t\tfor split == nil && sID < upper.SeqNum {\n\t\t\t\tsplit, err = s.State(ctx, sID)\n\t\t\t\tif err != nil && !NotFound(err) {\n\t\t\t\t\treturn nil, err\n\t\t\t\t}\n\n\t\t\t\tsID++\n\t\t\t}\n\t\t}\n\n\t\tif split == nil {\n\t\t\t// nothing between lower and upper, so upper is\n\t\t\t// the first state at or after the timestamp.\n\t\t\treturn upper, nil\n\t\t}\n\n\t\t// set the new boundary\n\t\tif timestamp.After(split.Timestamp) {\n\t\t\tlower = split\n\t\t} else {\n\t\t\tupper = split\n\t\t}\n\t}\n\n\t// timestamp is now between lower and upper, we want to return the upper.\n\treturn upper, nil\n}\n", Replace: "// stateRange is the pair of states the binary search narrows down: the timestamp\n// looked for is after lower and at or before upper.\ntype stateRange struct {\n\tlower, upper *State\n}\n\n// adjacent is true if there is no sequence number left between the bounds.\nfunc (r *stateRange) adjacent() bool {\n\treturn r.lower.SeqNum+1 >= r.upper.SeqNum\n}\n\n// middle is the sequence number to look at next.\nfunc (r *stateRange) middle() uint64 {\n\treturn (r.lower.SeqNum + r.upper.SeqNum) / 2\n}\n\n// narrow replaces one of the bounds by a state found between them.\nfunc (r *stateRange) narrow(split *State, timestamp time.Time) {\n\tif split.SeqNum%2 == 0 {\n\t\tr.lower = split\n\t} else {\n\t\tr.upper = split\n\t}\n}\n\nfunc findInRange(ctx context.Context, s *stater, lower, upper *State, timestamp time.Time) (*State, error) {\n\twindow := stateRange{lower: lower, upper: upper}\n\n\t// we do a binary search through the range to find the sequence number\n\tfor !window.adjacent() {\n\t\t// could do better here\n\t\tsplitID := window.middle()\n\n\t\tsplit, err := s.State(ctx, splitID)\n\t\tif err != nil && !NotFound(err) {\n\t\t\treturn nil, err\n\t\t}\n\n\t\tif split == nil {\n\t\t\t// file missing, search the next towards lower\n\t\t\tsID := splitID - 1\n\n\t\t\tfor split == nil && window.lower.SeqNum < sID {\n\t\t\t\tsplit, err = s.State(ctx, sID)\n\t\t\t\tif err != nil && !NotFound(err) {\n\t\t\t\t\treturn nil, err\n\t\t\t\t}\n\n\t\t\t\tsID--\n\t\t\t}\n\t\t}\n\n\t\tif split == nil {\n\t\t\t// still missing? search the next towards upper\n\t\t\tsID := splitID + 1\n\n\t\t\tfor split == nil && sID < window.upper.SeqNum {\n\t\t\t\tsplit, err = s.State(ctx, sID)\n\t\t\t\tif err != nil && !NotFound(err) {\n\t\t\t\t\treturn nil, err\n\t\t\t\t}\n\n\t\t\t\tsID++\n\t\t\t}\n\t\t}\n\n\t\tif split == nil {\n\t\t\t// nothing between lower and upper, so upper is\n\t\t\t// the first state at or after the timestamp.\n\t\t\treturn window.upper, nil\n\t\t}\n\n\t\t// set the new boundary\n\t\twindow.narrow(split, timestamp)\n\t}\n\n\t// timestamp is now between lower and upper, we want to return the upper.\n\treturn window.upper, nil\n}\n", ExpectRule: "M6", ExpectConstruct: "order@findInRange"},
 	// M3
 	{Name: "m3-format-two-digit-leaf", File: "replication/changesets.go", Find: "%03d/%03d/%03d", Replace: "%03d/%03d/%02d", ExpectRule: "M3", ExpectConstruct: "url@(*Datasource).ChangesetState [state]"},
 	{Name: "m3-level2-modulus", File: "replication/interval.go", Find: "(n%1000000)/1000", Replace: "(n%100000)/1000", ExpectRule: "M3", ExpectConstruct: "url@(*Datasource).MinuteState [state]"},
